@@ -462,7 +462,12 @@ def _run_program(ctx, profile, monitors, rng, nprog):
     for k in range(profile.script_len):
         if ctx.out_of_time():
             break
-        step = random_step(sess, rng, profile.op_weights)
+        prefer = (getattr(gp, "meta", None) or {}).get("prefer_ops")
+        if prefer and k < 2 and rng.random() < 0.6:
+            # templates name the primitives whose preconditions they were written to stress
+            step = random_step(sess, rng, {o: 1.0 for o in prefer})
+        else:
+            step = random_step(sess, rng, profile.op_weights)
         if step is None:
             ctx.stat("steps.noargs")
             continue
